@@ -44,7 +44,7 @@ var c02Kinds = []string{"general", "general", "beyond-capacity", "altered-recove
 func (c *c02) Cases(tier string, seed int64) []core.Case {
 	var cs []core.Case
 	r := core.Rng("C02", tier, seed)
-	n := map[string]int{"quick": 360, "thorough": 5000}[tier]
+	n := map[string]int{"quick": 360, "thorough": 25000}[tier]
 	for i := 0; i < n; i++ {
 		f := "par2"
 		if r.Intn(3) == 2 {
